@@ -5,12 +5,21 @@
     [dtest] (its p-values are C11's and C12's subject) and math.Log/math.Exp
     as oracles.  Histories on one collection (several Tables() calls with
     Format calls and further AddConfig in between): Model/LegacyHist.v,
-    Proofs/LegacyHist.v, section "one collection, several reports" below. *)
+    Proofs/LegacyHist.v, section "one collection, several reports" below.
+
+    The model follows golang/perf WITH the repair
+      hooks/fix_c17_change_direction.diff   improvement/regression decided on
+        the means (new.Mean < old.Mean), not on the sign of the percentage.
+    The observed output is judged (Corr/RunC17.v prop_ok) with the exact-rational
+    specification Model/LegacySpec.v, section "the declarative specification"
+    below; known finding C17_binary64_overflow: C17_mean_overflow_refuted,
+    C17_fence_overflow_refuted. *)
 From Coq Require Import ZArith Reals List Bool Sorting.Permutation Sorting.Sorted.
 From Flocq Require Import Core BinarySingleNaN.
 From Perf Require Import Base.Bytes Base.Sx Base.B64 Model.StatsF Model.Legacy Model.LegacyHist.
 From Perf Require Import Base.FmtFixed Proofs.B64Flocq.
 From Perf Require Import Proofs.Legacy Proofs.LegacySort Proofs.LegacyTables Proofs.LegacyMean Proofs.LegacyHist.
+From Perf Require Model.StatsQ Model.LegacySpec Proofs.LegacySpec.
 Import ListNotations.
 Local Open Scope Z_scope.
 
@@ -150,7 +159,7 @@ Theorem C17_delta_value_note_change : forall metric alpha p e o n,
    end,
    if significant alpha p e then
      if b64_eq (m_mean n) (m_mean o) then 0
-     else if Bool.eqb (b64_lt (pct_delta (m_mean o) (m_mean n)) f_zero) (negb (beq metric s_speed))
+     else if Bool.eqb (b64_lt (m_mean n) (m_mean o)) (negb (beq metric s_speed))
           then 1 else -1
    else 0).
 Proof. exact delta_cells_spec. Qed.
@@ -224,6 +233,84 @@ Theorem C17_nonzero_means : forall c unit cf,
   filter (fun x => negb (b64_eq x f_zero)) (map m_mean (present_stats c unit cf)).
 Proof. exact nonzero_means_spec. Qed.
 Print Assumptions C17_nonzero_means.
+
+(** the geomean of a configuration is taken over ALL benchmarks of the
+    collection that have statistics for that unit and configuration, in
+    first-appearance order, whether or not the table shows a row for them (the
+    statement does not restrict the geomean to the rows shown) *)
+Theorem C17_geomean_over_all_benchmarks : forall c unit cf m,
+  In m (present_stats c unit cf) <->
+  exists gb, In gb (all_benchmarks c) /\ stat_of c (mkKey cf (fst gb) (snd gb) unit) = Some m.
+Proof. exact present_stats_all. Qed.
+Print Assumptions C17_geomean_over_all_benchmarks.
+
+(** the direction rule of the code as it was (sign of the percentage) calls a
+    rise from -10 to -5 ns/op an improvement; repaired by
+    hooks/fix_c17_change_direction.diff (C17_delta_value_note_change above
+    states the repaired rule: new mean < old mean, reversed for speed) *)
+Theorem C17_direction_by_pct_sign_refuted :
+  let o := b64_of_Z (-10) in let n := b64_of_Z (-5) in
+  b64_lt o n = true /\ b64_lt (pct_delta o n) f_zero = true.
+Proof. exact Proofs.LegacySpec.direction_by_pct_sign_refuted. Qed.
+Print Assumptions C17_direction_by_pct_sign_refuted.
+
+(** ** the declarative specification (Model/LegacySpec.v) the observed output is
+    judged with: exact rationals, no operation of the code replayed.
+    On a sample without infinities its quartiles are the textbook R8
+    percentiles of the sorted sample (Model/StatsQ.percentile_q, bounded and
+    monotone: Properties/C12.v) ... *)
+Theorem C17_spec_quartiles_are_R8 : forall vals p,
+  LegacySpec.sp_nneg vals = 0%Z ->
+  Z.of_nat (length (LegacySpec.sp_sorted vals)) = LegacySpec.sp_N vals -> (0 < LegacySpec.sp_N vals)%Z ->
+  QArith_base.Qle_bool p (QArith_base.inject_Z 0) = false -> QArith_base.Qle_bool (QArith_base.inject_Z 1) p = false ->
+  LegacySpec.quantile_x vals p = Some (StatsQ.percentile_q (LegacySpec.sp_sorted vals) p).
+Proof. exact Proofs.LegacySpec.quantile_x_finite. Qed.
+Print Assumptions C17_spec_quartiles_are_R8.
+
+(** ... its mean is sum/n of the retained values ... *)
+Theorem C17_spec_mean_is_sum_div_n : forall rv,
+  LegacySpec.mean_x rv
+  = QArith_base.Qdiv (StatsQ.sum_q (map (fun x => QArith_base.inject_Z (B64Q.scaled_int (B64Q.min_exp rv) x)) rv))
+                     (QArith_base.inject_Z (Z.of_nat (length rv))).
+Proof. exact Proofs.LegacySpec.mean_x_is_sum_div_n. Qed.
+Print Assumptions C17_spec_mean_is_sum_div_n.
+
+(** ... which is what the code's recurrence m += (x - m)/(i+1) computes when
+    nothing is rounded.  NOT proved: that the binary64 recurrence [mean_f] and
+    the binary64 fence [fence] stay within the tolerances the judge grants
+    (Model/LegacySpec.v header); that is tested on every generated sample
+    (bin/props.d/C17.json modelled_not_verified). *)
+Theorem C17_mean_recurrence_exact_is_sum_div_n : forall xs,
+  xs <> [] -> QArith_base.Qeq (StatsQ.mean_inc_q (QArith_base.inject_Z 0) 0 xs) (StatsQ.mean_q xs).
+Proof. exact Proofs.LegacySpec.mean_recurrence_exact. Qed.
+Print Assumptions C17_mean_recurrence_exact_is_sum_div_n.
+
+(** KNOWN FINDING C17_binary64_overflow (recorded, not repaired): on finite
+    values near the top of the binary64 range (a) the mean is NaN although all
+    four values are retained and sum/n = 0 ... *)
+Theorem C17_mean_overflow_refuted :
+  let vals := [Proofs.LegacySpec.big; b64_neg Proofs.LegacySpec.big; Proofs.LegacySpec.big; b64_neg Proofs.LegacySpec.big] in
+  let m := compute_stats (bs "ns/op") vals in
+  forallb b64_is_finite vals = true
+  /\ m_rvalues m = vals
+  /\ b64_is_nan (m_mean m) = true
+  /\ LegacySpec.mean_value_spec (m_rvalues m) (m_mean m) = false
+  /\ LegacySpec.mean_value_spec (m_rvalues m) f_zero = true
+  /\ mean_no_overflow vals = false.
+Proof. exact Proofs.LegacySpec.mean_overflow_refuted. Qed.
+Print Assumptions C17_mean_overflow_refuted.
+
+(** ... and (b) the fence is (+Inf, -Inf): none of three values inside the exact fence is retained *)
+Theorem C17_fence_overflow_refuted :
+  let vals := [Proofs.LegacySpec.big17; b64_neg Proofs.LegacySpec.big17; Proofs.LegacySpec.big17] in
+  let m := compute_stats (bs "ns/op") vals in
+  forallb b64_is_finite vals = true
+  /\ fence vals = (S754_infinity false, S754_infinity true)
+  /\ m_rvalues m = []
+  /\ LegacySpec.retained_spec vals false (m_rvalues m) = false
+  /\ LegacySpec.retained_spec vals false vals = true.
+Proof. exact Proofs.LegacySpec.fence_overflow_refuted. Qed.
+Print Assumptions C17_fence_overflow_refuted.
 
 (** ** one collection, several reports
     A history is any sequence of AddConfig/AddFile/AddResults, Tables() and
@@ -321,4 +408,19 @@ Example C17_example_history :
   (map c_configs (hist_reports [] empty_coll ops), adds_before_reports [] ops)
   = ([[bs "old"]; [bs "old"; bs "new"]; [bs "old"; bs "new"]],
      [firstn 1 ex_cfs; ex_cfs; ex_cfs]).
+Proof. vm_compute. reflexivity. Qed.
+
+(** the hypotheses of C17_spec_quartiles_are_R8 hold on the example sample; its
+    exact quartiles are 10 and 124/3 (in units of 2^E) *)
+Example C17_example_spec_quartiles :
+  let vals := map ex_f [10; 11; 12; 10; 100] in
+  (LegacySpec.sp_nneg vals, Z.of_nat (length (LegacySpec.sp_sorted vals)) =? LegacySpec.sp_N vals, 0 <? LegacySpec.sp_N vals,
+   QArith_base.Qle_bool (QArith_base.Qmake 1 4) (QArith_base.inject_Z 0), QArith_base.Qle_bool (QArith_base.inject_Z 1) (QArith_base.Qmake 1 4),
+   match LegacySpec.quantile_x vals (QArith_base.Qmake 1 4), LegacySpec.quantile_x vals (QArith_base.Qmake 3 4) with
+   | Some q1, Some q3 =>
+       QArith_base.Qeq_bool (QArith_base.Qmult q1 (LegacySpec.pow2Q (LegacySpec.sp_E vals))) (QArith_base.Qmake 10 1)
+       && QArith_base.Qeq_bool (QArith_base.Qmult q3 (LegacySpec.pow2Q (LegacySpec.sp_E vals))) (QArith_base.Qmake 124 3)
+   | _, _ => false
+   end)
+  = (0, true, true, false, false, true).
 Proof. vm_compute. reflexivity. Qed.
